@@ -203,6 +203,30 @@ func (n *Normer) CondOf(v ssa.Value) *Cond {
 		switch x.Op {
 		case token.EQL, token.NEQ, token.LSS, token.LEQ, token.GTR, token.GEQ:
 			if isIntType(x.X.Type()) {
+				// an operand selected by a branch just before (limit := A; if c { limit = B }): the
+				// comparison by cases of that selection
+				if n.phiDepth < 3 {
+					var p *ssa.Phi
+					if q := firstOpenPhi(x.X, n, 0); q != nil {
+						p = q
+					} else if q := firstOpenPhi(x.Y, n, 0); q != nil {
+						p = q
+					}
+					if p != nil && len(p.Edges) >= 2 && p.Block().Idom() != nil {
+						blk := p.Block()
+						n.phiDepth++
+						total := cFalse
+						for ei := range p.Edges {
+							pred := blk.Preds[ei]
+							edge := cAnd(n.ReachCond(blk.Parent(), blk.Idom(), pred), n.EdgeCond(pred, blk))
+							n.PhiChoice[p] = ei
+							total = cOr(total, cAnd(edge, n.CondOf(v)))
+							delete(n.PhiChoice, p)
+						}
+						n.phiDepth--
+						return total
+					}
+				}
 				before := n.Opaque
 				n.Opaque = false
 				a, b := n.Norm(x.X), n.Norm(x.Y)
@@ -396,6 +420,11 @@ func (n *Normer) ReachCond(fn *ssa.Function, from, target *ssa.BasicBlock) *Cond
 	visiting := map[*ssa.BasicBlock]bool{}
 	cond = func(b *ssa.BasicBlock) *Cond {
 		if b == from {
+			// a bottom-tested counting loop: its continue condition holds for the current value of
+			// the loop variable at the top of every iteration (what a header test states directly)
+			if w := n.LoopWhile(b); w != nil {
+				return w
+			}
 			return cTrue
 		}
 		if c, ok := memo[b]; ok {
@@ -413,6 +442,9 @@ func (n *Normer) ReachCond(fn *ssa.Function, from, target *ssa.BasicBlock) *Cond
 			res = cOr(res, cAnd(cond(p), n.EdgeCond(p, b)))
 		}
 		visiting[b] = false
+		if w := n.LoopWhile(b); w != nil {
+			res = cAnd(res, w)
+		}
 		memo[b] = res
 		return res
 	}
@@ -425,6 +457,9 @@ func (n *Normer) ReachCond(fn *ssa.Function, from, target *ssa.BasicBlock) *Cond
 // EdgeCond is the condition for control to go from p to its successor s.
 func (n *Normer) EdgeCond(p, s *ssa.BasicBlock) *Cond {
 	if len(p.Succs) == 1 {
+		if w := n.LoopWhile(p); w != nil {
+			return w // "the loop continues", asked of the header of a bottom-tested loop
+		}
 		return cTrue
 	}
 	iff, ok := p.Instrs[len(p.Instrs)-1].(*ssa.If)
